@@ -239,6 +239,9 @@ def r3b_reader_counters(ctx):
     """the counters the normaliser copies into element 01 are the reader's: their wiring is C04.R1 (shared)"""
     for o in c04.r1_wiring(ctx):
         yield o
+    # the repair is triggered by the reader's count error: an unreadable declared count must raise it (C04.R3, shared)
+    for o in c04.r3_int_total(ctx):
+        yield o
 
 def r5_shared_tokenizer(ctx):
     """the segments the normaliser writes are the ones the tokenizer yields: no loss or stray line break at a buffer
